@@ -80,7 +80,7 @@ func (e *pxEnv) close() {
 
 // pxFeatures: optional 4th argument of `px new` — letters switching on features that must not
 // change what travels (c: circuit breaker, r: rate limiter, p: passive health checks, all with
-// thresholds no episode reaches; l: logging plugin)
+// thresholds no episode reaches; a: active health checks every second; l: logging plugin)
 var pxFeatures = ""
 
 func pxNew(strategy, ids, base string) string {
@@ -97,6 +97,9 @@ func pxNew(strategy, ids, base string) string {
 		n, _ := io.Copy(h, r.Body)
 		o := pxObs{method: r.Method, uri: r.RequestURI, host: r.Host, hdr: r.Header.Clone(), cl: r.ContentLength,
 			te: r.TransferEncoding, blen: int(n), bhash: h.Sum32()}
+		if strings.HasSuffix(r.URL.Path, "/healthz-verif") {
+			return // an active health probe of Helios (feature `a`): 200, not an exchange
+		}
 		if k := r.Header.Get("X-V-Conc"); k != "" {
 			// concurrent exchanges: every client asks for its own body
 			f := strings.Split(k, ".")
@@ -157,6 +160,9 @@ func pxNew(strategy, ids, base string) string {
 	if strings.Contains(pxFeatures, "p") {
 		cfg.HealthChecks.Passive = config.PassiveHealthCheckConfig{Enabled: true, UnhealthyThreshold: 1000000, UnhealthyTimeout: 30}
 	}
+	if strings.Contains(pxFeatures, "a") {
+		cfg.HealthChecks.Active = config.ActiveHealthCheckConfig{Enabled: true, Interval: 1, Timeout: 1, Path: "/healthz-verif"}
+	}
 	if strings.Contains(pxFeatures, "l") {
 		cfg.Plugins.Enabled = true
 		cfg.Plugins.Chain = []config.PluginConfig{{Name: "logging"}}
@@ -181,6 +187,9 @@ func pxNew(strategy, ids, base string) string {
 	e.ln = ln
 	go func() { _ = e.srv.Serve(ln) }()
 	px = e
+	if strings.Contains(pxFeatures, "a") {
+		time.Sleep(60 * time.Millisecond) // the first probe round has been made before any exchange
+	}
 	return "ok"
 }
 
